@@ -128,8 +128,8 @@ func joinHeaps(e *Enc, ps []heapParent) *HeapState {
 type locKind int
 
 const (
-	locCell  locKind = iota // scalar/slice cell in heap family Fam at key Ref
-	locInst                 // struct or array instance living at Ref
+	locCell locKind = iota // scalar/slice cell in heap family Fam at key Ref
+	locInst                // struct or array instance living at Ref
 )
 
 // Loc describes where a Go value of type Typ lives.
@@ -179,8 +179,8 @@ func (e *Enc) frefName(owner types.Type, fname string) string {
 		e.declareFun(name, []string{SInt}, SInt)
 		inv := name + ".inv"
 		e.declareFun(inv, []string{SInt}, SInt)
-		e.axiom(fmt.Sprintf("(forall ((r Int)) (! (and (= (%s (%s r)) r) (= (ref.tag (%s r)) %d) (not (= (%s r) 0))) :pattern ((%s r))))",
-			smtSym(inv), smtSym(name), smtSym(name), e.tagFor(name), smtSym(name), smtSym(name)))
+		e.axiom(fmt.Sprintf("(forall ((r Int)) (! (and (= (%s (%s r)) r) (= (ref.tag (%s r)) %d) (not (= (%s r) 0)) (= (ref.root (%s r)) (ref.root r))) :pattern ((%s r))))",
+			smtSym(inv), smtSym(name), smtSym(name), e.tagFor(name), smtSym(name), smtSym(name), smtSym(name)))
 	}
 	return name
 }
